@@ -78,6 +78,22 @@ CLAIMED = {
              "resolution inside a selected branch is not modelled (known finding lua-string-vs-bool-overload).",
         technique="Coq proof over hand model + compiled-binding correspondence against a Lua API stub",
         design="4/C18"),
+    "C03": dict(
+        text="Coq theorems over an executable model of the argument handling wrapp.py generates (PyArg_ParseTupleAndKeywords "
+             "abstracted as positional-then-keyword assignment with '|' before the first default, the switch on the argument "
+             "count, multi_dispatch): every argument handed to the library is the caller's value for that parameter (by position "
+             "or by the keyword of that name) of an accepted class; calls supplying a prefix of the parameters, in any "
+             "positional/keyword split and keyword order, never hand over an uninitialised variable; too many arguments, unknown "
+             "or duplicate keyword, missing required or wrongly typed argument give TypeError; overloads: first acceptor in "
+             "declaration order, TypeError if all reject. Full delivery statement refuted (keyword skipping a default) = known "
+             "finding. Tie: real wrapp output for random libraries compiled against CPython 3.12 with an instrumented library, "
+             "called in a fresh interpreter with all splits / skips / malformed calls, compared with the extracted model; an "
+             "independent oracle applies Python's call semantics to the documented signature.",
+        note="Trusted: Coq kernel, extraction, harness, g++, CPython. Modelled: parse abstraction, default switch, overload "
+             "dispatch for in-arguments of scalar/bool/std::string type. Not modelled: out/inout arguments, arrays, structs, "
+             "classes as arguments, numpy, reference counting, result building (validated by execution only).",
+        technique="Coq proof over hand model + compiled-extension correspondence against CPython",
+        design="4/C03"),
 }
 
 PENDING = {}
